@@ -13,6 +13,9 @@ PID = 'C18'
 
 
 def le_min(v):
+    if not isinstance(v, int) or isinstance(v, bool) or v < 0:
+        # a decoder of unsigned quantities answered something that is not a natural number: reported by the caller
+        raise ValueError('not a natural number: %r' % (v,))
     out = []
     while v:
         out.append(v & 255)
@@ -107,7 +110,7 @@ def run(replay=None):
                         if raw != form:
                             ck.violation(None, 'read_varbyteint_return(%s) returned raw bytes %s' % (data.hex(), raw.hex()))
                     except Exception as e:
-                        ck.violation(None, 'CompactSize decoder raised %r on %s' % (e, data.hex()))
+                        ck.violation(None, 'CompactSize decoder raised or answered no natural number (%r) on %s' % (e, data.hex()))
         # varstr
         # content classes include bytes that LOOK like text: ASCII hex digits, decimal digits, blanks (a bytes value is
         # binary data whatever it looks like)
